@@ -292,6 +292,16 @@ def run_multi2(ctx, p):
         d = md(M, want)
         ctx.judge('motion', d <= TOL * sc, dict(sig, kind='value_of_sequence_wrong', element=kd),
                   lambda: 'element %d (%s) of Twist2 %s .exp(%s, %s) = %s, expected %s' % (i, kd, kinds, ths, units, core.short(M, 200), core.short(want, 200)))
+    # scalar multiples S*k, k*S of the whole sequence (whole-number and real k), value by value
+    k = p.get('k', 2)
+    try:
+        Sv = [np.asarray(t_.S, dtype=np.float64) for t_ in tws]
+        for side, Tk in (('right', T * k), ('left', k * T)):
+            okk = type(Tk) is sm.Twist2 and len(Tk) == len(Sv) and all(md(Tk.data[i], Sv[i] * k) <= 1e-12 * max(1.0, float(np.max(np.abs(Sv[i] * k)))) for i in range(len(Sv)))
+            ctx.judge('consistency', okk, dict(sig, kind='scalar_multiple_wrong', side=side, ktype=type(k).__name__),
+                      lambda: 'Twist2(%d values) scaled by %r on the %s holds %s, expected %s' % (len(Sv), k, side, core.short(getattr(Tk, 'data', Tk), 300), core.short([v * k for v in Sv], 300)))
+    except Exception as e:
+        ctx.bad('consistency', dict(sig, kind='raised', exc=type(e).__name__, where=_where(e)), 'Twist2 of kinds %s scaled by %r raised %r' % (kinds, k, e))
     # the reported kinds, value by value ("a prismatic twist is reported as prismatic and a revolute one is not, also for planar twists")
     try:
         pr, rv = T.isprismatic, T.isrevolute
@@ -326,12 +336,21 @@ def run_multi3(ctx, p):
         kT = k * T
         ok = type(kT) is sm.Twist3 and len(kT) == n and all(md(kT.data[i], Sv[i] * k) <= 1e-12 * max(1.0, float(np.max(np.abs(Sv[i] * k)))) for i in range(n))
         ctx.judge('consistency', ok, dict(sig, kind='scalar_multiple_wrong', side='left'), lambda: '%r * Twist3(%d values) holds %s' % (k, n, core.short(getattr(kT, 'data', kT), 300)))
-        for name, got, want in (('(S*k).exp()', Tk.exp(), [ref.f64(ref.exp_twist_ld(v * k)) for v in Sv]),
-                                ('S.exp(k)', T.exp(k), [ref.f64(ref.exp_twist_ld(v * k)) for v in Sv]),
-                                ('S.exp([theta_i])', T.exp(list(ths)), [ref.f64(ref.exp_twist_ld(v * t)) for v, t in zip(Sv, ths)]),
-                                ('S.exp()', T.exp(), [ref.f64(ref.exp_twist_ld(v)) for v in Sv])):
-            ok = type(got) is sm.SE3 and len(got) == n
-            d = max(md(got.data[i], want[i]) for i in range(n)) if ok else math.inf
+        allrev = all(kd == 'R' for kd in kinds)      # (what a prismatic value does under degrees is not stated: degrees for revolute sequences only)
+        DEG = 180 / PI
+        calls = [('(S*k).exp()', Tk.exp(), [ref.f64(ref.exp_twist_ld(v * k)) for v in Sv]),
+                 ('S.exp(k)', T.exp(k), [ref.f64(ref.exp_twist_ld(v * k)) for v in Sv]),
+                 ('S.exp([theta_i])', T.exp(list(ths)), [ref.f64(ref.exp_twist_ld(v * t)) for v, t in zip(Sv, ths)]),
+                 ('S.exp()', T.exp(), [ref.f64(ref.exp_twist_ld(v)) for v in Sv])]
+        if allrev:
+            calls += [("S.exp(k, 'deg')", T.exp(k * DEG, 'deg'), [ref.f64(ref.exp_twist_ld(v * k)) for v in Sv]),
+                      ("S.exp([theta_i], units='deg')", T.exp([t * DEG for t in ths], units='deg'), [ref.f64(ref.exp_twist_ld(v * t)) for v, t in zip(Sv, ths)]),
+                      ("S.exp(array(theta_i), 'deg')", T.exp(np.array([t * DEG for t in ths]), 'deg'), [ref.f64(ref.exp_twist_ld(v * t)) for v, t in zip(Sv, ths)]),
+                      ("S[0].exp([theta_i], 'deg')", T[0].exp([t * DEG for t in ths], 'deg') if n > 1 else T.exp([ths[0] * DEG], 'deg'),
+                       [ref.f64(ref.exp_twist_ld(Sv[0] * t)) for t in (ths if n > 1 else ths[:1])])]
+        for name, got, want in calls:
+            ok = type(got) is sm.SE3 and len(got) == len(want)
+            d = max(md(got.data[i], want[i]) for i in range(len(want))) if ok else math.inf
             ctx.judge('motion', d <= TOL * sc, dict(sig, kind='exp_of_sequence_wrong', call=name),
                       lambda: '%s on %d unit twists differs from the per-value exponential by %.3g (k=%r thetas=%s kinds=%s)' % (name, n, d, k, ths, kinds))
         if n > 1:
@@ -413,8 +432,12 @@ def run(ctx):
     for _ in range(ctx.scale(300, 6000)):
         n = int(rng.integers(2, 5))
         kinds = ['R' if rng.random() < 0.65 else 'P' for _ in range(n)]
-        data = [gen.vec(rng, 2, 1e-3, 1e3) if kd == 'R' else gen.axis(rng)[:2] + np.array([1e-3, 0]) for kd in kinds]
-        drive(RUNNERS, ctx, 'multi2', dict(kinds=kinds, data=data, thetas=[float(thetas(rng)) for _ in range(n)], units=['rad', 'deg'][rng.integers(2)], vector=bool(rng.integers(2))))
+        def pdir():        # a planar direction of non-zero length (the z axis of the 3D generator projects to nothing)
+            d_ = gen.axis(rng)[:2]
+            return d_ if np.linalg.norm(d_) > 1e-6 else np.array([1e-3, 0.0])
+        data = [gen.vec(rng, 2, 1e-3, 1e3) if kd == 'R' else pdir() for kd in kinds]
+        drive(RUNNERS, ctx, 'multi2', dict(kinds=kinds, data=data, thetas=[float(thetas(rng)) for _ in range(n)], units=['rad', 'deg'][rng.integers(2)], vector=bool(rng.integers(2)),
+                                           k=[2, 3, -1, -2, 0, 1][rng.integers(6)] if rng.random() < 0.6 else float(thetas(rng))))
     for _ in range(ctx.scale(150, 2500)):
         dim = int(rng.integers(2, 4))
         n = 6 if dim == 3 else 3
